@@ -335,6 +335,7 @@ class SemPlumber:
                         raise Unliftable(where, "an alternative does not build field %s" % name)
                 nodes = self.node_by_k(leaf, tree)
                 out = []
+                last_k = -1
                 for c in self.contribs(leaf, V, where):
                     if c[0] == "c":
                         n = nodes.get(c[1])
@@ -342,6 +343,9 @@ class SemPlumber:
                             raise Unliftable(where, "a result component comes from a call that is not on this path")
                         p = self.source(n, c[2], c[3], where)
                         if p != ("unitvalue",):
+                            if c[1] <= last_k:
+                                raise Unliftable(where, "field %s concatenates its matches in another order than they were made" % (name or "<value>"))
+                            last_k = c[1]
                             out.append((id(n), p))
                 return out
             return field_of
@@ -426,6 +430,9 @@ class SemPlumber:
             if not cs or cs[0] != ("acc", v):
                 raise Unliftable(where, "accumulator %s is replaced instead of extended" % name)
             ents = []
+            ks = [c[1] for c in cs[1:] if c[0] == "c"]
+            if ks != sorted(ks) or len(set(ks)) != len(ks):
+                raise Unliftable(where, "accumulator %s concatenates an iteration's matches in another order than they were made" % name)
             for c in cs[1:]:
                 if c[0] != "c":
                     raise Unliftable(where, "accumulator %s is extended with %s" % (name, c))
